@@ -516,6 +516,9 @@ class Oracle:
             tgt = self.tid(st.target)
             cols = self.query(st.q, [])
             names = [self.v(c) for c in st.cols] if (st.cols and len(st.cols) == len(cols)) else [n for n, _ in cols]
+            if getattr(self, "rename_outputs", None) is not None:
+                names = self.rename_outputs(tgt, names)
+            self.outcols = list(zip(names, [s for _, s in cols]))
             for nm, (_, srcs) in zip(names, cols):
                 if nm is None:
                     continue
